@@ -96,8 +96,17 @@ pub struct StageSpec {
     pub end: u64,
     pub limit: u32,
     pub cap: Option<u32>,
-    /// (address, n): n = flex mint_count / Merkle allocation (0 = a leaf without allocation)
+    /// (address, n): n = flex mint_count / Merkle allocation (any u32, 0 included)
     pub members: Vec<(String, u32)>,
+    /// Merkle kinds: members whose leaf carries NO allocation (the whitelist's per_address_limit applies)
+    #[serde(default)]
+    pub noalloc: Vec<String>,
+}
+impl StageSpec {
+    /// None: not a member; Some(None): member, leaf without allocation; Some(Some(n)): leaf binds allocation n
+    fn alloc_of(&self, who: &str) -> Option<Option<u32>> {
+        self.members.iter().find(|m| m.0 == who).map(|m| if self.noalloc.iter().any(|x| x == who) { None } else { Some(m.1) })
+    }
 }
 #[derive(Clone, Debug, Serialize, Deserialize, PartialEq)]
 pub struct WlSpec {
@@ -139,7 +148,7 @@ impl WlSpec {
         self.stages[i]
             .members
             .iter()
-            .map(|(a, n)| leaf(if tiered { Some(i as u32) } else { None }, a, if *n > 0 { Some(*n) } else { None }))
+            .map(|(a, _)| leaf(if tiered { Some(i as u32) } else { None }, a, self.stages[i].alloc_of(a).unwrap()))
             .collect()
     }
     fn tree(&self, i: usize) -> mtree::Tree {
@@ -934,25 +943,20 @@ fn honest_mint(v: &Fam, sp: &WlSpec, i: usize, who: &str, amt: u128) -> COp {
         return mintm(who, amt, None, None, None);
     }
     let tiered = is_tiered(&sp.kind);
-    let n = sp.stages[i].members.iter().find(|m| m.0 == who).map(|m| m.1);
     let st = if tiered { Some(i as u32) } else { None };
-    match n {
-        Some(n) => {
-            let al = if n > 0 { Some(n) } else { None };
+    match sp.stages[i].alloc_of(who) {
+        Some(al) => {
             let pr = sp.tree(i).proof(&leaf(st, who, al));
             mintm(who, amt, st, pr, al)
         }
         // not a member: tries with somebody else's proof and own name
-        None => {
-            let other = sp.stages[i].members.first().cloned();
-            match other {
-                Some((o, n)) => {
-                    let al = if n > 0 { Some(n) } else { None };
-                    mintm(who, amt, st, sp.tree(i).proof(&leaf(st, &o, al)), al)
-                }
-                None => mintm(who, amt, st, Some(vec![]), Some(1)),
+        None => match sp.stages[i].members.first().cloned() {
+            Some((o, _)) => {
+                let al = sp.stages[i].alloc_of(&o).unwrap();
+                mintm(who, amt, st, sp.tree(i).proof(&leaf(st, &o, al)), al)
             }
-        }
+            None => mintm(who, amt, st, Some(vec![]), Some(1)),
+        },
     }
 }
 
@@ -986,8 +990,8 @@ fn alloc_pool() -> &'static Vec<u32> {
 fn adversarial_mint(rng: &mut Rng, sp: &WlSpec, i: usize, who: &str, amt: u128) -> COp {
     let tiered = is_tiered(&sp.kind);
     let st = if tiered { Some(i as u32) } else { None };
-    let me = sp.stages[i].members.iter().find(|m| m.0 == who).map(|m| m.1);
-    let mk_al = |n: u32| if n > 0 { Some(n) } else { None };
+    let me: Option<u32> = sp.stages[i].alloc_of(who).flatten(); // own allocation, if the leaf binds one
+    let al_of = |st: &StageSpec, a: &str| st.alloc_of(a).flatten();
     if !is_merkle(&sp.kind) {
         return match rng.below(5) {
             0 => mintm(who, amt, None, None, Some(5)),
@@ -1003,26 +1007,29 @@ fn adversarial_mint(rng: &mut Rng, sp: &WlSpec, i: usize, who: &str, amt: u128) 
         0 => mintm(who, amt, st, None, Some(5)),
         // own proof, larger allocation
         1 => {
-            let al = me.and_then(mk_al);
-            mintm(who, amt, st, tree.proof(&leaf(st, who, al)), Some(me.unwrap_or(0) + 1 + rng.below(3) as u32))
+            let al = me;
+            mintm(who, amt, st, tree.proof(&leaf(st, who, al)), Some(me.unwrap_or(0).saturating_add(1 + rng.below(3) as u32)))
         }
         // proof of another member (their leaf, their allocation)
         2 => {
             let o = sp.stages[i].members.iter().find(|m| m.0 != who).cloned();
             match o {
-                Some((o, n)) => mintm(who, amt, st, tree.proof(&leaf(st, &o, mk_al(n))), mk_al(n)),
+                Some((o, _)) => {
+                    let oa = al_of(&sp.stages[i], &o);
+                    mintm(who, amt, st, tree.proof(&leaf(st, &o, oa)), oa)
+                }
                 None => mintm(who, amt, st, Some(vec![]), Some(3)),
             }
         }
         // stage of another tree (proof and leaf of stage j != i)
         3 if tiered && sp.stages.len() > 1 => {
             let j = (i + 1 + rng.below(sp.stages.len() as u64 - 1) as usize) % sp.stages.len();
-            let n = sp.stages[j].members.iter().find(|m| m.0 == who).map(|m| m.1).unwrap_or(3);
-            mintm(who, amt, Some(j as u32), sp.tree(j).proof(&leaf(Some(j as u32), who, mk_al(n))).or(Some(vec![])), mk_al(n))
+            let n = al_of(&sp.stages[j], who).or(Some(3));
+            mintm(who, amt, Some(j as u32), sp.tree(j).proof(&leaf(Some(j as u32), who, n)).or(Some(vec![])), n)
         }
         // own proof, stage argument changed / dropped
         4 => {
-            let al = me.and_then(mk_al);
+            let al = me;
             mintm(who, amt, if tiered { None } else { Some(0) }, tree.proof(&leaf(st, who, al)), al)
         }
         // empty / junk / malformed proof with a big allocation
@@ -1039,7 +1046,7 @@ fn adversarial_mint(rng: &mut Rng, sp: &WlSpec, i: usize, who: &str, amt: u128) 
         ),
         // own proof, allocation dropped
         _ => {
-            let al = me.and_then(mk_al);
+            let al = me;
             mintm(who, amt, st, tree.proof(&leaf(st, who, al)), None)
         }
     }
@@ -1068,6 +1075,9 @@ const WL_PRICE: u128 = 60;
 const PUB_PRICE: u128 = 100;
 const START: u64 = 3000;
 
+const ALLOC_ZERO: u32 = 7;
+const ALLOC_MAX: u32 = 8;
+
 fn plan_spec(p: &Plan, base: u64) -> WlSpec {
     let tiered = is_tiered(p.kind);
     let n = if tiered { p.nstages } else { 1 };
@@ -1076,15 +1086,26 @@ fn plan_spec(p: &Plan, base: u64) -> WlSpec {
         let start = base + 400 * i as u64;
         let end = if p.contiguous && i + 1 < n { start + 400 } else { start + 300 };
         let mut members = vec![];
+        let mut noalloc = vec![];
         for b in 0..3 {
             let cnt = p.counts[i][b];
             if cnt > 0 {
-                // a Merkle leaf without allocation is encoded as n = 0: use it for buyer 2 in stage 0 when count is 3
-                let nn = if is_merkle(p.kind) && b == 1 && cnt == 3 { 0 } else { cnt };
+                // counts 7 / 8 stand for the boundary allocations 0 / u32::MAX on the Merkle kinds
+                let nn = match (is_merkle(p.kind), cnt) {
+                    (true, ALLOC_ZERO) => 0,
+                    (true, ALLOC_MAX) => u32::MAX,
+                    (false, ALLOC_ZERO) => 1,
+                    (false, ALLOC_MAX) => 3,
+                    (_, c) => c,
+                };
+                // a leaf without allocation: buyer 2 when its count is 3
+                if is_merkle(p.kind) && b == 1 && cnt == 3 {
+                    noalloc.push(BUYERS[b].to_string());
+                }
                 members.push((BUYERS[b].to_string(), nn));
             }
         }
-        stages.push(StageSpec { start, end, limit: p.limits[i], cap: if tiered { p.caps[i] } else { None }, members });
+        stages.push(StageSpec { start, end, limit: p.limits[i], cap: if tiered { p.caps[i] } else { None }, members, noalloc });
     }
     WlSpec { kind: p.kind.to_string(), price: WL_PRICE, ibc: false, stages }
 }
@@ -1093,8 +1114,8 @@ fn plan_spec(p: &Plan, base: u64) -> WlSpec {
 fn expected_ent(p: &Plan, sp: &WlSpec, i: usize, b: usize) -> u32 {
     match sp.stages[i].members.iter().find(|m| m.0 == BUYERS[b]) {
         None => 0,
-        Some((_, n)) => {
-            if is_flex(&sp.kind) || (is_merkle(&sp.kind) && *n > 0) {
+        Some((a, n)) => {
+            if is_flex(&sp.kind) || (is_merkle(&sp.kind) && !sp.stages[i].noalloc.contains(a)) {
                 *n
             } else {
                 p.limits[i]
@@ -1112,13 +1133,13 @@ fn burst(rng: &mut Rng, p: &Plan, v: &Fam, sp: &WlSpec, i: usize, ops: &mut Vec<
     let mut queue: Vec<usize> = vec![];
     for (k, b) in order.iter().enumerate() {
         let ent = expected_ent(p, sp, i, *b);
-        let tries = if k == 0 || full { ent + 1 } else { rng.range(1, (ent.max(1)) as u64) as u32 };
+        let tries = if k == 0 || full { ent.saturating_add(1) } else { rng.range(1, (ent.max(1)) as u64) as u32 };
         for _ in 0..tries.min(4) {
             queue.push(*b);
         }
     }
     // interleave (in the probes the first buyer runs into its own limit before a stage cap can bind)
-    let keep = if p.noise { 0 } else { (expected_ent(p, sp, i, order[0]) + 1).min(4) as usize };
+    let keep = if p.noise { 0 } else { expected_ent(p, sp, i, order[0]).saturating_add(1).min(4) as usize };
     for k in (keep + 1..queue.len()).rev() {
         let j = keep + rng.below((k - keep) as u64 + 1) as usize;
         queue.swap(k, j);
@@ -1152,7 +1173,7 @@ fn history(rng: &mut Rng, p: &Plan, tag: &str) -> Case {
             // what that helper builds, as a spec (for sizing the bursts and honest arguments)
             let stages = windows
                 .iter()
-                .map(|(s, e)| StageSpec { start: *s, end: *e, limit: p.limits[0], cap: p.caps[0], members: members.iter().map(|m| (m.clone(), p.limits[0])).collect() })
+                .map(|(s, e)| StageSpec { start: *s, end: *e, limit: p.limits[0], cap: p.caps[0], members: members.iter().map(|m| (m.clone(), p.limits[0])).collect(), noalloc: vec![] })
                 .collect();
             cur = Some(WlSpec { kind: p.kind.into(), price: WL_PRICE, ibc: false, stages });
         }
@@ -1316,7 +1337,13 @@ fn random_plan(rng: &mut Rng, variant: usize, kind: &'static str) -> Plan {
     let mut counts = [[0u32; 3]; 3];
     for i in 0..3 {
         for b in 0..3 {
-            counts[i][b] = if rng.chance(1, 6) { 0 } else { rng.range(1, 3) as u32 };
+            counts[i][b] = if rng.chance(1, 6) {
+                0
+            } else if is_merkle(kind) && rng.chance(1, 4) {
+                *rng.pick(&[ALLOC_ZERO, ALLOC_ZERO, ALLOC_MAX])
+            } else {
+                rng.range(1, 3) as u32
+            };
         }
     }
     let mut caps = [None; 3];
@@ -1364,7 +1391,12 @@ fn probe_plans() -> Vec<(String, Plan)> {
             let caps = if tiered { [Some(limits[0] + 1), Some(limits[1] + 1), Some(limits[2])] } else { [None; 3] };
             // flex counts / Merkle allocations: three different figures per stage (none equal to all limits)
             let cn = |x: u32| [x, x % 3 + 1, (x + 1) % 3 + 1];
-            let counts = [cn(limits[0]), cn(limits[1]), cn(limits[2])];
+            let mut counts = [cn(limits[0]), cn(limits[1]), cn(limits[2])];
+            if is_merkle(kind) {
+                counts[0][2] = ALLOC_ZERO;
+                counts[1][2] = ALLOC_MAX;
+                counts[2][1] = ALLOC_ZERO;
+            }
             v.push((
                 format!("probe:{}:{}", var.name, kind),
                 Plan {
@@ -1426,7 +1458,7 @@ fn corpus() -> Vec<Case> {
             kind: "merkle".into(),
             price: WL_PRICE,
             ibc: false,
-            stages: vec![StageSpec { start: 1000, end: 2000, limit: 1, cap: None, members: vec![("buyer1".into(), 1), ("buyer2".into(), 2), ("stranger".into(), 0)] }],
+            stages: vec![StageSpec { start: 1000, end: 2000, limit: 1, cap: None, members: vec![("buyer1".into(), 1), ("buyer2".into(), 2), ("stranger".into(), 0)], noalloc: vec!["stranger".into()] }],
         };
         let t = sp.tree(0);
         let p1 = t.proof(&leaf(None, "buyer1", Some(1)));
@@ -1468,6 +1500,111 @@ fn corpus() -> Vec<Case> {
             ],
         });
     }
+    // --- boundary allocations proven by the tree: 0, 1, limit-1, limit, limit+1, well above, u32::MAX, and a leaf
+    //     without allocation, on all three Merkle minters and both Merkle whitelist kinds; every member mints up
+    //     to and past its allocation (allocation 0 => no whitelist mint at all; above the Config limit => that
+    //     many); on the tiered kind the stage argument takes Some(0), Some(active), Some(other), None ---
+    for variant in [4usize, 5, 8] {
+        let var = fam(variant);
+        let l = 3u32; // the whitelist's per_address_limit
+        let end_in = if variant >= 6 { Some(6000) } else { None };
+        let mk_case = |tag: &str, sp: &WlSpec, ops: Vec<COp>| Case {
+            tag: format!("corpus:boundary-allocations:{}", tag),
+            variant,
+            num_tokens: 40,
+            pal: 2,
+            price: PUB_PRICE,
+            start_in: START,
+            end_in,
+            unlimited: false,
+            init_wl: None,
+            ops: {
+                let mut o = vec![COp::MakeWl(sp.clone()), COp::Attach { who: CREATOR.into() }];
+                o.extend(ops);
+                o
+            },
+        };
+        // flat Merkle whitelist, two trees
+        let flat = |members: Vec<(&str, u32)>, noalloc: Vec<&str>| WlSpec {
+            kind: "merkle".into(),
+            price: WL_PRICE,
+            ibc: false,
+            stages: vec![StageSpec {
+                start: 1000,
+                end: 2000,
+                limit: l,
+                cap: None,
+                members: members.into_iter().map(|(a, n)| (a.to_string(), n)).collect(),
+                noalloc: noalloc.into_iter().map(|a| a.to_string()).collect(),
+            }],
+        };
+        let spa = flat(vec![("buyer1", 0), ("buyer2", 1), ("buyer3", l - 1), ("stranger", l), ("creator", l + 1)], vec![]);
+        let spb = flat(vec![("buyer1", 2 * l + 1), ("buyer2", u32::MAX), ("buyer3", 0), ("stranger", 5)], vec!["stranger"]);
+        for (tag, sp) in [("flat-a", &spa), ("flat-b", &spb)] {
+            let mut ops = vec![at(1000, 0)];
+            for (who, n) in sp.stages[0].members.clone() {
+                let ent = match sp.stages[0].alloc_of(&who).unwrap() {
+                    Some(a) => a,
+                    None => l,
+                };
+                // honest calls up to and past the entitlement
+                for _ in 0..ent.saturating_add(2).min(9) {
+                    ops.push(honest_mint(&var, sp, 0, &who, WL_PRICE));
+                }
+                // the same proof with the allocation dropped / nudged, and a stage argument the flat tree does not bind
+                let al = sp.stages[0].alloc_of(&who).unwrap();
+                let pr = sp.tree(0).proof(&leaf(None, &who, al));
+                ops.push(mintm(&who, WL_PRICE, None, pr.clone(), None));
+                ops.push(mintm(&who, WL_PRICE, None, pr.clone(), Some(n.wrapping_add(1))));
+                ops.push(mintm(&who, WL_PRICE, Some(0), pr.clone(), al));
+                ops.push(mintm(&who, WL_PRICE, None, None, al));
+            }
+            v.push(mk_case(tag, sp, ops));
+        }
+        // tiered Merkle whitelist: the leaf binds the stage label (0-based index here)
+        let tst = |s: u64, e: u64, members: Vec<(&str, u32)>, noalloc: Vec<&str>| StageSpec {
+            start: s,
+            end: e,
+            limit: l,
+            cap: None,
+            members: members.into_iter().map(|(a, n)| (a.to_string(), n)).collect(),
+            noalloc: noalloc.into_iter().map(|a| a.to_string()).collect(),
+        };
+        let spt = WlSpec {
+            kind: "tiered-merkle".into(),
+            price: WL_PRICE,
+            ibc: false,
+            stages: vec![
+                tst(1000, 1300, vec![("buyer1", 0), ("buyer2", 1), ("buyer3", l + 1), ("stranger", 2)], vec!["stranger"]),
+                tst(1300, 1600, vec![("buyer1", l), ("buyer2", 0), ("buyer3", u32::MAX), ("stranger", l - 1)], vec![]),
+                tst(1700, 2000, vec![("buyer1", 2 * l), ("buyer2", 2), ("buyer3", 0)], vec!["buyer2"]),
+            ],
+        };
+        let mut ops = vec![];
+        for i in 0..3usize {
+            ops.push(at(spt.stages[i].start, 0));
+            for (who, _) in spt.stages[i].members.clone() {
+                let al = spt.stages[i].alloc_of(&who).unwrap();
+                let ent = al.unwrap_or(l);
+                for _ in 0..ent.saturating_add(2).min(8) {
+                    ops.push(honest_mint(&var, &spt, i, &who, WL_PRICE));
+                }
+                // stage argument: None, Some(0), Some(other) with the proof of the active stage's leaf ...
+                let pr = spt.tree(i).proof(&leaf(Some(i as u32), &who, al));
+                for st in [None, Some(0u32), Some((i as u32 + 1) % 3), Some(i as u32 + 1)] {
+                    if st != Some(i as u32) {
+                        ops.push(mintm(&who, WL_PRICE, st, pr.clone(), al));
+                    }
+                }
+                // ... and the leaf + proof + stage label of another stage's tree (a bigger allocation there)
+                let j = (i + 1) % 3;
+                if let Some(alj) = spt.stages[j].alloc_of(&who) {
+                    ops.push(mintm(&who, WL_PRICE, Some(j as u32), spt.tree(j).proof(&leaf(Some(j as u32), &who, alj)), alj));
+                }
+            }
+        }
+        v.push(mk_case("tiered", &spt, ops));
+    }
     // --- tiered hand-over with the counters per stage, plain and Merkle minters ---
     for variant in 0..6usize {
         let var = fam(variant);
@@ -1477,9 +1614,9 @@ fn corpus() -> Vec<Case> {
             price: WL_PRICE,
             ibc: false,
             stages: vec![
-                StageSpec { start: 1000, end: 1300, limit: 1, cap: Some(2), members: vec![("buyer1".into(), 1), ("buyer2".into(), 1), ("buyer3".into(), 1)] },
-                StageSpec { start: 1300, end: 1600, limit: 2, cap: Some(3), members: vec![("buyer1".into(), 2), ("buyer2".into(), 2)] },
-                StageSpec { start: 1700, end: 2000, limit: 3, cap: None, members: vec![("buyer1".into(), 3), ("buyer3".into(), 1)] },
+                StageSpec { start: 1000, end: 1300, limit: 1, cap: Some(2), members: vec![("buyer1".into(), 1), ("buyer2".into(), 1), ("buyer3".into(), 1)], noalloc: vec![] },
+                StageSpec { start: 1300, end: 1600, limit: 2, cap: Some(3), members: vec![("buyer1".into(), 2), ("buyer2".into(), 2)], noalloc: vec![] },
+                StageSpec { start: 1700, end: 2000, limit: 3, cap: None, members: vec![("buyer1".into(), 3), ("buyer3".into(), 1)], noalloc: vec![] },
             ],
         };
         let hm = |i: usize, who: &str| honest_mint(&var, &sp, i, who, WL_PRICE);
@@ -1541,7 +1678,7 @@ fn incompatible_cases() -> Vec<Case> {
                 continue;
             }
             let tiered = is_tiered(kind);
-            let mk = |s: u64, e: u64| StageSpec { start: s, end: e, limit: 1, cap: None, members: vec![("buyer1".into(), 2), ("buyer2".into(), 1)] };
+            let mk = |s: u64, e: u64| StageSpec { start: s, end: e, limit: 1, cap: None, members: vec![("buyer1".into(), 2), ("buyer2".into(), 1)], noalloc: vec![] };
             let sp = WlSpec { kind: kind.into(), price: WL_PRICE, ibc: false, stages: if tiered { vec![mk(1000, 1300), mk(1300, 1600)] } else { vec![mk(1000, 1600)] } };
             let pm = |who: &str, amt: u128| if var.merkle { mintm(who, amt, None, None, None) } else { mint(who, amt) };
             let mut ops = vec![COp::MakeWl(sp.clone()), COp::Attach { who: CREATOR.into() }, at(1000, 0)];
